@@ -272,3 +272,16 @@ func TestC20_Regress(t *testing.T) {
 		regressFail(t, "C20", "typestring-for-first-attr", "TypeString = %s parses back to %#v", src, got)
 	}
 }
+
+func TestC19_Regress2(t *testing.T) {
+	secret := "Zq7xK9pLm2Rt5Wv8Yb3N"
+	ctx := &hcl.EvalContext{Variables: map[string]cty.Value{"s": cty.StringVal(secret).Mark("M"), "n": cty.NumberIntVal(1)}}
+	for _, src := range []string{"alpha = (null ? null : {(s) = [1]})\n", "alpha = (n.foo ? {(s) = [1]} : null)\n", "alpha = ([] ? {(s) = [1]} : null)\n"} {
+		_, d := hcldec.Decode(parseNative(t, src), &hcldec.AttrSpec{Name: "alpha", Type: cty.Map(cty.Number)}, ctx)
+		for _, dg := range d {
+			if strings.Contains(dg.Summary+dg.Detail, secret) {
+				regressFail(t, "C19", "conditional-error-placeholder-unmarked", "%s: diagnostic reveals the marked string: %s", src, dg.Detail)
+			}
+		}
+	}
+}
